@@ -139,18 +139,26 @@ class FuseSuccessiveClip(_FuseReluClipBase):
         min_clip1, max_clip1, dtype = self.extract_min_max(first_clip_node)
         min_clip2, max_clip2, _ = self.extract_min_max(second_clip_node)
 
-        def combine(val1, val2, op):
-            if val1 is not None and val2 is not None:
-                return ir.tensor(np.array(op(val1, val2), dtype=dtype))
-            elif val1 is not None:
-                return ir.tensor(val1)
-            elif val2 is not None:
-                return ir.tensor(val2)
-            return None
+        # Clip(v, lo, hi) is min(max(v, lo), hi). The composition of two Clips is the
+        # Clip whose bounds are the bounds of the first one clipped by the second one
+        # (a missing bound is -inf / +inf). This also covers disjoint ranges, e.g.
+        # Clip(Clip(x, 0, 10), 20, 30) == 20.
+        min_clip = min_clip1
+        if min_clip2 is not None:
+            min_clip = min_clip2 if min_clip is None else np.maximum(min_clip, min_clip2)
+        if max_clip2 is not None and min_clip is not None:
+            min_clip = np.minimum(min_clip, max_clip2)
 
-        min_clip = combine(min_clip1, min_clip2, np.maximum)
-        max_clip = combine(max_clip1, max_clip2, np.minimum)
+        max_clip = max_clip1
+        if min_clip2 is not None and max_clip is not None:
+            max_clip = np.maximum(max_clip, min_clip2)
+        if max_clip2 is not None:
+            max_clip = max_clip2 if max_clip is None else np.minimum(max_clip, max_clip2)
 
+        if min_clip is not None:
+            min_clip = ir.tensor(np.array(min_clip, dtype=dtype))
+        if max_clip is not None:
+            max_clip = ir.tensor(np.array(max_clip, dtype=dtype))
         return min_clip, max_clip
 
 
@@ -179,6 +187,14 @@ class FuseSuccessiveReluClip(FuseSuccessiveClipRelu):
 
     def pattern(self, op, x):
         return op.Relu(op.Clip(x, _allow_other_inputs=True, _outputs=["out_first_clip"]))
+
+    def compute_clip_min_max(self, first_clip_node: ir.Node, _):
+        min_clip, max_clip = super().compute_clip_min_max(first_clip_node, _)
+        if max_clip is not None:
+            # Relu is applied last: Relu(Clip(x, -5, -2)) == 0, the upper bound is at least 0
+            max_value = max_clip.numpy()
+            max_clip = ir.tensor(np.array(np.maximum(max_value, 0), dtype=max_value.dtype))
+        return min_clip, max_clip
 
 
 successive_relu_rule = FuseSuccessiveRelu().rule()
